@@ -7,6 +7,7 @@ import (
 	"os"
 	"runtime"
 	"sync"
+	"sync/atomic"
 	"time"
 
 	"github.com/intel/fastgo/compress/flate"
@@ -143,6 +144,10 @@ func main() {
 	if pool != nil {
 		c.rep.SpecReqs = pool.Reqs
 	}
+	if n := atomic.LoadInt64(&synthSelfCheckFailed); n > 0 {
+		c.rep.Note(fmt.Sprintf("stream synthesiser self-check: %d streams claimed strictly valid were not accepted by compress/flate and were replaced (generator defect, not a finding)", n))
+		c.rep.Hist["synth-self-check-failed"] = int(n)
+	}
 	c.rep.WallS = time.Since(start).Seconds()
 	if onlyID != "" {
 		c.rep.OnlyCase = onlyCase
@@ -235,7 +240,9 @@ func suiteC10(c *ctx) {
 		cases = append(cases, cs)
 	}
 	parallelJ(len(cases), func(i int) interface{} { return cases[i] }, func(i int) { checkHistoryAPI(c.rep, c.pool, cases[i]) })
-	filterViolations(c.rep, func(o string) bool { return isFlushOracle(o) || o == "panic" || o == "unexpected-error" || o == "stream-after-flush" })
+	filterViolations(c.rep, func(o string) bool {
+		return isFlushOracle(o) || o == "panic" || o == "unexpected-error" || o == "stream-after-flush"
+	})
 }
 
 func suiteC19(c *ctx) {
